@@ -21,6 +21,7 @@ import time
 import traceback
 import warnings
 
+sys.dont_write_bytecode = True  # keep /verif/runtime free of __pycache__
 HERE = os.path.dirname(os.path.abspath(__file__))
 PROPS = {"C10": "rt_c10", "C11": "rt_c11", "C12": "rt_c12", "C13": "rt_c13", "C14": "rt_c14", "C16": "rt_c16"}
 CASE_TIMEOUT = {"quick": 120, "thorough": 300}
@@ -82,6 +83,7 @@ def run_one(prop, repo, args, timeout):
     cid = str(args.get("id", "case"))
     failures = []
     evaluations = 0
+    ratios = {}
     try:
         mod = _setup(prop, repo)
         import icontract
@@ -123,10 +125,11 @@ def run_one(prop, repo, args, timeout):
             signal.alarm(0)
             signal.signal(signal.SIGALRM, old)
         evaluations = rt_common.evaluations()
+        ratios = {"%s:%s" % (args.get("op", "?"), k): v for k, v in rt_common.ratios().items()}
     except BaseException as exc:  # pragma: no cover - last line of defence
         failures.append({"name": cid + ".harness_error", "message": _short("%s: %s" % (type(exc).__name__, exc)),
                          "driver": "rmode", "args": dict(args, prop=prop)})
-    return {"id": cid, "evaluations": evaluations, "failures": failures, "wall_s": time.time() - t0}
+    return {"id": cid, "evaluations": evaluations, "failures": failures, "wall_s": time.time() - t0, "ratios": ratios}
 
 
 def _worker(payload):
@@ -157,7 +160,10 @@ def main(argv=None):
         if ns.case is not None:
             one = json.loads(ns.case)
             one.pop("prop", None)
-            one.setdefault("id", "case")
+            if "id" not in one:
+                import hashlib
+                one["id"] = "%s.case-%s" % (one.get("op", "case"), hashlib.sha1(
+                    json.dumps(one, sort_keys=True).encode()).hexdigest()[:8])
             cases = [one]
             result["bound"] = "single case re-run (--case): " + json.dumps(_strip(one), sort_keys=True)
         else:
@@ -179,7 +185,7 @@ def main(argv=None):
             import multiprocessing as mp
             ctx = mp.get_context("fork")  # the parent has not run any torch kernel yet
             deadline = time.time() + GLOBAL_BUDGET[ns.tier]
-            # expensive cases first would need a cost model; a shuffled static order balances well enough
+            # one task per case (apply_async), results collected in enumeration order
             with ctx.Pool(processes=jobs, maxtasksperchild=200) as pool:
                 pend = [pool.apply_async(_worker, ((ns.prop, ns.repo, c, timeout),)) for c in cases]
                 for i, p in enumerate(pend):
@@ -204,6 +210,12 @@ def main(argv=None):
             key = "%s:%s" % (f["args"].get("op", "?"), f["name"].rsplit(".", 1)[-1])
             summary[key] = summary.get(key, 0) + 1
         result["failure_summary"] = summary
+        worst = {}
+        for o in outs:
+            for k, v in o.get("ratios", {}).items():
+                worst[k] = max(worst.get(k, 0.0), v)
+        # worst observed (measured value)/(contract bound) per inequality clause over ALL evaluations; > 1 means violated
+        result["worst_ratio"] = {k: (float("%.3e" % v) if v != float("inf") else "inf") for k, v in sorted(worst.items())}
         slow = sorted(outs, key=lambda o: -o["wall_s"])[:3]
         result["slowest"] = [{"id": o["id"], "wall_s": round(o["wall_s"], 2)} for o in slow]
     except BaseException as exc:  # the harness must not crash
